@@ -283,14 +283,15 @@ class ClosingIterable:
 
 
 # ------------------------------------------------------------------ generators
-TEXTS = ["", "hello", "héllo wörld", "中文", "a\nb", "{}", "x" * 300, " ", "ÿ"]
+TEXTS = ["", "hello", "héllo wörld", "中文", "a\nb", "{}", "x" * 300, "z" * 65536, "z" * 131072, "z" * 196608, " ", "ÿ"]
 HEADER_SETS = [None, {}, {"X-Custom": "1"}, {"x-lower": "v", "X-UPPER": "V"}, {"Content-Type": "text/x-custom"}, {"X-Latin": "caf\xe9"},
                {"Cache-Control": "no-store", "X-A": "a, b"}, {"content-length": "5"}]
 COOKIES = [[], [{"name": "sid", "value": "abc"}], [{"name": "a", "value": "1"}, {"name": "b", "value": "two words", "kw": {"max_age": 60, "httponly": True}}],
            [{"name": "a", "value": "1"}, {"name": "a", "value": "2", "kw": {"path": "/x", "samesite": "strict"}}, {"name": "c", "value": "é;=", "kw": {"secure": True, "domain": "example.com"}}],
            [{"name": "token", "value": "abc\n"}], [{"name": "t\n", "value": "\r\nSet-Cookie: x=1"}, {"name": "q", "value": "\"x; secure; y\""}], [{"name": "z", "value": "tab\there\x00"}], [{"name": "sp", "value": "two  spaces   three"}, {"name": "lead", "value": "  x  "}]]
 JSONS = [None, 1, "s", [], {}, {"a": [1, 2, {"b": None}]}, {"k": "é中"}, [1.5, True], " "]
-EVENTS = [{"data": "x"}, {"data": "a\nb", "event": "e"}, {"id": "1", "retry": 5}, {"data": "", "id": "2"}, {"data": "é", "event": "up"}]
+EVENTS = [{"data": "x"}, {"data": "a\nb", "event": "e"}, {"id": "1", "retry": 5}, {"data": "", "id": "2"}, {"data": "é", "event": "up"},
+          {"data": "s" * 65528}, {"data": "s" * (131072 - 8)}]  # blocks of exactly 64 KiB / 128 KiB
 
 
 def gen_response(rng, files=None, allow_sse=True, allow_raise=False):
@@ -324,7 +325,8 @@ def gen_response(rng, files=None, allow_sse=True, allow_raise=False):
             r["status"] = rng.choice([301, 302, 303, 307, 308])
     elif kind == "Stream":
         n = rng.choice([0, 1, 1, 2, 3, 5])
-        r["chunks"] = [rng.choice([b"chunk%d;" % i, b"", b"\xff\x00", b"y" * 5000]) for i in range(n)]
+        r["chunks"] = [rng.choice([b"chunk%d;" % i, b"", b"\xff\x00", b"y" * 5000] + ([b"q" * 65536, b"q" * 131072, b"q" * 196608] if rng.random() < 0.1 else []))
+                       for i in range(n)]  # also exact multiples of 64 KiB
         if rng.random() < 0.3:
             r["content_type"] = rng.choice(["text/plain", "application/x-ndjson"])
         if allow_raise and rng.random() < 0.3:
@@ -386,7 +388,8 @@ def norm_set_cookie(v):
 def make_files(d):
     """small files used by File recipes: (path list)"""
     out = []
-    for name, size in (("empty.bin", 0), ("one.txt", 1), ("ten.txt", 10), ("big.bin", 70000), ("ünï.txt", 7), ("page.html", 33), ("ctl\there\x1b.bin", 5)):
+    for name, size in (("empty.bin", 0), ("one.txt", 1), ("ten.txt", 10), ("big.bin", 70000), ("ünï.txt", 7), ("page.html", 33), ("ctl\there\x1b.bin", 5),
+                       ("k128.bin", 131072), ("k192.bin", 196608)):
         p = os.path.join(d, name)
         with open(p, "wb") as f:
             f.write(bytes((0x80 | (i * 31 % 128)) for i in range(size)))
